@@ -46,7 +46,7 @@ pub fn expand(input: &DeriveInput, trait_name: &'static str) -> Result<TokenStre
             #[doc = "`. Returns `false` otherwise"]
             #[inline]
             #[must_use]
-            pub const fn #fn_name(&self) -> bool {
+            pub const fn #fn_name(&self) -> derive_more::core::primitive::bool {
                 derive_more::core::matches!(self, #enum_name ::#variant_ident #data_pattern)
             }
         };
